@@ -144,3 +144,17 @@ mod tests {
         }
     }
 }
+
+// Verification hooks (add-only, compiled only with `--cfg rngs_verif`).
+#[cfg(rngs_verif)]
+impl Xoshiro256Plus {
+    /// Verification hook: build a generator directly from its state words.
+    pub fn verif_from_state(s: [u64; 4]) -> Self {
+        Xoshiro256Plus { s }
+    }
+
+    /// Verification hook: read the state words.
+    pub fn verif_state(&self) -> [u64; 4] {
+        self.s
+    }
+}
